@@ -129,6 +129,11 @@ def run_present_case(case: dict) -> dict:
     except Exception as exc:  # noqa: BLE001
         out["ingest_ok"] = False
         out["ingest_exc"] = f"{type(exc).__name__}: {exc}"[:300]
+    if case.get("ingest_only"):
+        # job sets beyond fragment F (counts > 1): only the ingestion-level monitor applies
+        out.update({"learn_ok": True, "ingest_only": True, "parsed": False, "names": [],
+                    "steps": 0})
+        return out
     n_events = sum(len(j) for j in pv)
     budget = lcase.STEP_BUDGET_BASE + lcase.STEP_BUDGET_PER_EVENT * n_events
     res = learn.learn(pv, name, budget)
